@@ -44,8 +44,10 @@ def safe_execute(mod, case):
         out = mod.execute(case)
     except HarnessError as e:
         return {"status": "harness_error", "message": f"HarnessError: {e}", "oracle": None}
-    except StepLimit as e:
-        return {"status": "harness_error", "message": f"StepLimit: {e}", "oracle": None}
+    except StepLimit:
+        # a generated program that is too long for the step budget is a workload matter (properties that promise
+        # progress catch StepLimit of the subject themselves and judge it)
+        return {"status": "rejected", "rejected": "workload:step-limit", "oracle": None}
     except RecursionError as e:
         return {"status": "harness_error", "message": f"RecursionError: {e}", "oracle": None}
     except Exception as e:  # a bug in the harness must never look like a pass
